@@ -44,7 +44,7 @@ void World::shipDelta(const Op& op, const Obs& before, int, bool) {
 	if (!isActive) return;
 	if (A.obs.prev.empty() && !enterStep) {
 		// nothing recorded: replicas are not told anything; if the state key moved anyway (scheduling), they are out of date
-		if (before.alive && !A.obs.sameConfig(before)) { for (int f : followers) slots[size_t(f)].synced = false; logExact = false; probe("unrecorded_state_change"); }
+		if (before.alive && !A.obs.sameConfig(before)) { for (int f : followers) slots[size_t(f)].synced = false; logExact = false; storeBroken = true; probe("unrecorded_state_change"); }
 		return;
 	}
 	Message m;
